@@ -1009,3 +1009,30 @@ def c24own(tier, seed):
         end(st, f"C24own-random-{n}", "random")
         n += 1
     return out
+
+
+def c04multi(tier, seed):
+    """C04 with a reader that is matched with two or three TRANSIENT_LOCAL writers (one per participant): the history of one
+    writer is held back while the others complete; wait_for_historical_data may only succeed when all of it has arrived."""
+    rng = random.Random(9000 + seed)
+    out = []
+    n = 6 if tier == "quick" else 60
+    for k in range(n):
+        nw = 2 + k % 2
+        steps = [{"do": "participant"} for _ in range(nw + 1)]
+        for w in range(nw):
+            steps.append({"do": "create_writer", "part": w, "qos": q(dur="TRANSIENT_LOCAL", hist=0)})
+        for w in range(nw):
+            steps += [{"do": "write", "w": w, "i": rng.choice([1, 2]), "len": 8} for _ in range(rng.randint(1, 3))]
+        for w in range(nw):
+            steps.append({"do": "partition", "from_part": w, "to_part": nw, "user_only": True})
+        steps.append({"do": "create_reader", "part": nw, "qos": q(dur="TRANSIENT_LOCAL", hist=0)})
+        steps += [{"do": "wait_match", "w": w, "n": 1} for w in range(nw)]
+        held = rng.randrange(nw)
+        for w in range(nw):
+            if w != held:
+                steps.append({"do": "unpartition", "from_part": w, "to_part": nw})
+        steps += [{"do": "sleep", "ms": rng.choice([0, 300, 700])}, {"do": "wait_hist", "r": 0, "ms": rng.choice([900, 2500])}, {"do": "take", "r": 0},
+                  {"do": "heal"}, {"do": "wait_hist", "r": 0, "ms": 5000}, {"do": "take", "r": 0}, {"do": "final"}]
+        out.append({"name": f"C04-multi-{k}", "family": "multiwriter", "seed": seed * 73 + k, "frag": 1344, "steps": steps})
+    return out
